@@ -1,1 +1,412 @@
-From Verif Require Import Lib.Base Model.C14_Subscriptions.
+(* C14 -- lemmas.  The theorems of Properties/C14.v are instances of the lemmas at the end of each
+   part. *)
+From Verif Require Import Lib.Base Model.C14_Subscriptions Model.C14_Spec.
+From Coq Require Import ZifyBool ZifyN ZifyNat.
+From Coq Require Import Sorting.Sorted.
+
+(* =========================================================================================== *)
+(* Part 1.  Aggregator selection arithmetic.                                                   *)
+
+Lemma land_low_shiftl : forall a x n, a < 2 ^ n -> N.land a (N.shiftl x n) = 0.
+Proof.
+  intros a x n H. apply N.bits_inj_0. intro m. rewrite N.land_spec.
+  destruct (N.lt_ge_cases m n) as [L|G].
+  - rewrite N.shiftl_spec_low by exact L. apply andb_false_r.
+  - replace (N.testbit a m) with false; [reflexivity|].
+    symmetry. destruct (N.eq_dec a 0) as [->|NZ]; [apply N.bits_0|].
+    apply N.bits_above_log2. apply N.log2_lt_pow2; [lia|].
+    eapply N.lt_le_trans; [exact H|]. apply N.pow_le_mono_r; lia.
+Qed.
+
+Lemma lor_shiftl_add : forall a x n, a < 2 ^ n -> N.lor a (N.shiftl x n) = a + x * 2 ^ n.
+Proof.
+  intros a x n H.
+  rewrite <- N.lxor_lor by (apply land_low_shiftl; exact H).
+  rewrite <- N.add_nocarry_lxor by (apply land_low_shiftl; exact H).
+  rewrite N.shiftl_mul_pow2. reflexivity.
+Qed.
+
+Lemma lor_shiftl8_add : forall a x, a < 256 -> N.lor a (N.shiftl x 8) = a + 256 * x.
+Proof. intros a x H. rewrite lor_shiftl_add by exact H. change (2 ^ 8) with 256. lia. Qed.
+
+Lemma le64_bytes : forall b0 b1 b2 b3 b4 b5 b6 b7 rest,
+  b0 < 256 -> b1 < 256 -> b2 < 256 -> b3 < 256 -> b4 < 256 -> b5 < 256 -> b6 < 256 -> b7 < 256 ->
+  le64 (b0 :: b1 :: b2 :: b3 :: b4 :: b5 :: b6 :: b7 :: rest) =
+  bytes_to_uint64 [b0; b1; b2; b3; b4; b5; b6; b7].
+Proof.
+  intros b0 b1 b2 b3 b4 b5 b6 b7 rest H0 H1 H2 H3 H4 H5 H6 H7.
+  assert (E : le64 (b0 :: b1 :: b2 :: b3 :: b4 :: b5 :: b6 :: b7 :: rest) =
+    N.lor b0 (N.shiftl (N.lor b1 (N.shiftl (N.lor b2 (N.shiftl (N.lor b3 (N.shiftl (N.lor b4
+      (N.shiftl (N.lor b5 (N.shiftl (N.lor b6 (N.shiftl b7 8)) 8)) 8)) 8)) 8)) 8)) 8)).
+  { unfold le64. rewrite !N.shiftl_lor, !N.shiftl_shiftl. reflexivity. }
+  rewrite E. rewrite !lor_shiftl8_add by assumption.
+  unfold bytes_to_uint64, fold_right. lia.
+Qed.
+
+Lemma bytes_to_uint64_bound : forall bs, bytes bs -> bytes_to_uint64 bs < 256 ^ N.of_nat (length bs).
+Proof.
+  induction bs as [|b bs IH]; intro H.
+  - cbn. lia.
+  - inversion H as [|? ? Hb Hbs]; subst. specialize (IH Hbs).
+    change (bytes_to_uint64 (b :: bs)) with (b + 256 * bytes_to_uint64 bs).
+    replace (N.of_nat (length (b :: bs))) with (N.succ (N.of_nat (length bs))) by (cbn [length]; lia).
+    rewrite N.pow_succ_r'. lia.
+Qed.
+
+Lemma max1 : forall m, (if m =? 0 then 1 else m) = N.max 1 m.
+Proof. intro m. destruct (N.eqb_spec m 0); lia. Qed.
+
+Lemma hash8_split : forall h : list N, (8 <= length h)%nat ->
+  exists b0 b1 b2 b3 b4 b5 b6 b7 rest, h = b0 :: b1 :: b2 :: b3 :: b4 :: b5 :: b6 :: b7 :: rest.
+Proof.
+  intros h H.
+  destruct h as [|b0 [|b1 [|b2 [|b3 [|b4 [|b5 [|b6 [|b7 rest]]]]]]]]; cbn in H; try lia.
+  repeat eexists.
+Qed.
+
+Lemma le64_spec : forall h, bytes h -> (8 <= length h)%nat -> le64 h = bytes_to_uint64 (firstn 8 h).
+Proof.
+  intros h Hb Hl. destruct (hash8_split h Hl) as (b0 & b1 & b2 & b3 & b4 & b5 & b6 & b7 & rest & ->).
+  unfold bytes in Hb.
+  repeat match goal with H : Forall _ (_ :: _) |- _ => inversion H; clear H; subst end.
+  rewrite le64_bytes by assumption. reflexivity.
+Qed.
+
+Lemma le64_lt_two64 : forall h, bytes h -> (8 <= length h)%nat -> le64 h < two64.
+Proof.
+  intros h Hb Hl. rewrite le64_spec by assumption.
+  assert (Hf : bytes (firstn 8 h)).
+  { unfold bytes in *. rewrite Forall_forall in *. intros x Hx. apply Hb.
+    rewrite <- (firstn_skipn 8 h). apply in_or_app. left. exact Hx. }
+  pose proof (bytes_to_uint64_bound _ Hf) as B.
+  rewrite firstn_length_le in B by exact Hl. exact B.
+Qed.
+
+Lemma is_aggregator_spec_lemma : forall len target h,
+  bytes h -> (8 <= length h)%nat -> is_aggregator len target h = spec_is_aggregator len target h.
+Proof.
+  intros len target h Hb Hl. unfold is_aggregator, spec_is_aggregator.
+  rewrite max1, le64_spec by assumption. reflexivity.
+Qed.
+
+(* only the first 8 bytes of the digest are read, by the code and by the specification *)
+Lemma le64_prefix : forall h, le64 (firstn 8 h) = le64 h.
+Proof.
+  intro h.
+  destruct h as [|b0 [|b1 [|b2 [|b3 [|b4 [|b5 [|b6 [|b7 rest]]]]]]]]; reflexivity.
+Qed.
+
+Lemma is_aggregator_prefix : forall len target h,
+  is_aggregator len target (firstn 8 h) = is_aggregator len target h.
+Proof. intros. unfold is_aggregator. rewrite le64_prefix. reflexivity. Qed.
+
+Lemma spec_is_aggregator_prefix : forall len target h,
+  spec_is_aggregator len target (firstn 8 h) = spec_is_aggregator len target h.
+Proof. intros. unfold spec_is_aggregator. rewrite firstn_firstn. reflexivity. Qed.
+
+(* the selection really depends on the committee size only through size / target: every committee
+   smaller than twice the target makes every validator an aggregator *)
+Lemma small_committee_all_aggregate : forall len target h,
+  len < 2 * target -> is_aggregator len target h = true.
+Proof.
+  intros len target h H. unfold is_aggregator. rewrite max1.
+  assert (len / target <= 1).
+  { destruct (N.eq_dec target 0) as [->|NZ]; [cbn; destruct len; cbn; lia|].
+    assert (len / target < 2) by (apply N.div_lt_upper_bound; lia). lia. }
+  replace (N.max 1 (len / target)) with 1 by lia. rewrite N.mod_1_r. reflexivity.
+Qed.
+
+(* =========================================================================================== *)
+(* Part 2.  Association lists: find_sub / put.                                                 *)
+
+Lemma sub_key_eqb_iff : forall s c e, sub_key_eqb s c e = true <-> skey e = (s, c).
+Proof.
+  intros s c e. unfold sub_key_eqb, skey. rewrite andb_true_iff, !N.eqb_eq. split.
+  - intros [-> ->]. reflexivity.
+  - intro H. injection H as -> ->. split; reflexivity.
+Qed.
+
+Lemma same_key_iff : forall s c d, same_key s c d = true <-> dkey d = (s, c).
+Proof.
+  intros s c d. unfold same_key, dkey. rewrite andb_true_iff, !N.eqb_eq. split.
+  - intros [-> ->]. reflexivity.
+  - intro H. injection H as -> ->. split; reflexivity.
+Qed.
+
+Lemma sub_key_eqb_mk_sub : forall s c t L d, sub_key_eqb s c (mk_sub t L d) = same_key s c d.
+Proof. reflexivity. Qed.
+
+Lemma find_sub_put : forall s c e info,
+  find_sub s c (put e info) = if sub_key_eqb s c e then Some e else find_sub s c info.
+Proof.
+  intros s c e info. unfold find_sub. induction info as [|x info IH]; cbn [put find].
+  - destruct (sub_key_eqb s c e); reflexivity.
+  - destruct (sub_key_eqb (s_slot e) (s_comm e) x) eqn:Ex; cbn [find].
+    + apply sub_key_eqb_iff in Ex.
+      destruct (sub_key_eqb s c e) eqn:Ee; [reflexivity|].
+      destruct (sub_key_eqb s c x) eqn:Ey; [|reflexivity].
+      apply sub_key_eqb_iff in Ey. rewrite Ex in Ey. unfold skey in Ee.
+      assert (sub_key_eqb s c e = true) by (apply sub_key_eqb_iff; unfold skey; congruence).
+      congruence.
+    + destruct (sub_key_eqb s c x) eqn:Ey.
+      * destruct (sub_key_eqb s c e) eqn:Ee; [|reflexivity].
+        apply sub_key_eqb_iff in Ey, Ee.
+        assert (sub_key_eqb (s_slot e) (s_comm e) x = true).
+        { apply sub_key_eqb_iff. rewrite Ey. unfold skey in Ee. congruence. }
+        congruence.
+      * exact IH.
+Qed.
+
+Lemma find_sub_some : forall s c info e,
+  find_sub s c info = Some e -> In e info /\ s_slot e = s /\ s_comm e = c.
+Proof.
+  intros s c info e H. unfold find_sub in H. apply find_some in H as [Hi Hk].
+  apply sub_key_eqb_iff in Hk. unfold skey in Hk. injection Hk as <- <-. auto.
+Qed.
+
+Lemma find_sub_none_iff : forall s c info, find_sub s c info = None <-> ~ In (s, c) (map skey info).
+Proof.
+  intros s c info. unfold find_sub. induction info as [|x info IH]; cbn [find map In].
+  - tauto.
+  - destruct (sub_key_eqb s c x) eqn:E.
+    + apply sub_key_eqb_iff in E. split; [discriminate|]. intro H. exfalso. apply H. left. exact E.
+    + rewrite IH. split.
+      * intros H [H1|H1]; [|tauto]. apply sub_key_eqb_iff in H1. congruence.
+      * tauto.
+Qed.
+
+Lemma find_sub_in_nodup : forall info e,
+  NoDup (map skey info) -> In e info -> find_sub (s_slot e) (s_comm e) info = Some e.
+Proof.
+  intros info e. unfold find_sub. induction info as [|x info IH]; cbn [map find In]; intros ND Hi.
+  - destruct Hi.
+  - inversion ND as [|? ? Hn ND']; subst. destruct Hi as [->|Hi].
+    + replace (sub_key_eqb (s_slot e) (s_comm e) e) with true; [reflexivity|].
+      symmetry. apply sub_key_eqb_iff. reflexivity.
+    + destruct (sub_key_eqb (s_slot e) (s_comm e) x) eqn:E.
+      * apply sub_key_eqb_iff in E. exfalso. apply Hn. rewrite E.
+        change (s_slot e, s_comm e) with (skey e). apply in_map. exact Hi.
+      * apply IH; assumption.
+Qed.
+
+Lemma put_keys : forall e info,
+  map skey (put e info) = if find_sub (s_slot e) (s_comm e) info then map skey info
+                          else map skey info ++ [skey e].
+Proof.
+  intros e info. unfold find_sub. induction info as [|x info IH]; cbn [put find map app].
+  - reflexivity.
+  - destruct (sub_key_eqb (s_slot e) (s_comm e) x) eqn:E; cbn [map].
+    + apply sub_key_eqb_iff in E. unfold skey at 1. rewrite <- E. reflexivity.
+    + rewrite IH. destruct (find _ info); reflexivity.
+Qed.
+
+Lemma put_nodup : forall e info, NoDup (map skey info) -> NoDup (map skey (put e info)).
+Proof.
+  intros e info ND. rewrite put_keys.
+  destruct (find_sub (s_slot e) (s_comm e) info) eqn:F; [exact ND|].
+  apply find_sub_none_iff in F.
+  apply NoDup_rev in ND. rewrite <- (rev_involutive (_ ++ _)). apply NoDup_rev.
+  rewrite rev_app_distr. cbn. constructor; [|exact ND].
+  rewrite <- in_rev. exact F.
+Qed.
+
+(* =========================================================================================== *)
+(* Part 3.  What calculateSubscriptionInfo records for one (slot, committee).                  *)
+
+(* one validator of the committee, at the level of the committee's entry *)
+Definition estep (t : N) (L : list duty) (o : option sub) (d : duty) : option sub :=
+  match o with
+  | Some e => if s_agg e then o else Some (mk_sub t L d)
+  | None => Some (mk_sub t L d)
+  end.
+
+Lemma find_add_member : forall t L s c info d,
+  find_sub s c (add_member t L info d) =
+  if same_key s c d then estep t L (find_sub s c info) d else find_sub s c info.
+Proof.
+  intros t L s c info d. unfold add_member.
+  destruct (same_key s c d) eqn:K.
+  - pose proof K as K'. apply same_key_iff in K'. unfold dkey in K'. injection K' as Hs Hc. subst s c.
+    destruct (find_sub (d_slot d) (d_comm d) info) as [e|] eqn:F; cbn [estep].
+    + destruct (s_agg e); [exact F|]. rewrite find_sub_put, sub_key_eqb_mk_sub, K. reflexivity.
+    + rewrite find_sub_put, sub_key_eqb_mk_sub, K. reflexivity.
+  - destruct (find_sub (d_slot d) (d_comm d) info) as [e|] eqn:F.
+    + destruct (s_agg e); [reflexivity|]. rewrite find_sub_put, sub_key_eqb_mk_sub, K. reflexivity.
+    + rewrite find_sub_put, sub_key_eqb_mk_sub, K. reflexivity.
+Qed.
+
+Lemma find_fold_add_member : forall t L s c M info,
+  find_sub s c (fold_left (add_member t L) M info) =
+  fold_left (estep t L) (filter (same_key s c) M) (find_sub s c info).
+Proof.
+  intros t L s c M. induction M as [|d M IH]; intro info; cbn [fold_left filter].
+  - reflexivity.
+  - rewrite IH, find_add_member. destruct (same_key s c d); reflexivity.
+Qed.
+
+Lemma s_agg_mk_sub : forall t L d, s_agg (mk_sub t L d) = agg_of t L d.
+Proof. reflexivity. Qed.
+
+Lemma fold_estep_agg : forall t L M e, s_agg e = true -> fold_left (estep t L) M (Some e) = Some e.
+Proof.
+  intros t L M e H. induction M as [|d M IH]; cbn [fold_left estep]; [reflexivity|].
+  rewrite H. exact IH.
+Qed.
+
+Lemma last_opt_cons_some : forall {A} (l : list A) (x : A), last_opt (x :: l) <> None.
+Proof.
+  intros A l. induction l as [|y l IH]; intro x; [discriminate|].
+  change (last_opt (x :: y :: l)) with (last_opt (y :: l)). apply IH.
+Qed.
+
+Lemma last_opt_cons : forall {A} (x : A) l, last_opt (x :: l) = match last_opt l with Some y => Some y | None => Some x end.
+Proof.
+  intros A x l. destruct l as [|y l]; [reflexivity|].
+  change (last_opt (x :: y :: l)) with (last_opt (y :: l)).
+  destruct (last_opt (y :: l)) eqn:E; [reflexivity|].
+  exfalso. exact (last_opt_cons_some l y E).
+Qed.
+
+Lemma last_opt_none : forall {A} (l : list A), last_opt l = None <-> l = [].
+Proof.
+  intros A l. split; [|intros ->; reflexivity].
+  destruct l as [|x l]; [reflexivity|]. rewrite last_opt_cons. destruct (last_opt l); discriminate.
+Qed.
+
+Lemma last_opt_in : forall {A} (l : list A) x, last_opt l = Some x -> In x l.
+Proof.
+  intros A l. induction l as [|y l IH]; intros x H; [discriminate|].
+  rewrite last_opt_cons in H. destruct (last_opt l) as [z|] eqn:E.
+  - injection H as <-. right. apply IH. reflexivity.
+  - injection H as <-. left. reflexivity.
+Qed.
+
+Lemma fold_estep_some : forall t L M e, s_agg e = false ->
+  fold_left (estep t L) M (Some e) =
+  match find (agg_of t L) M with
+  | Some d => Some (mk_sub t L d)
+  | None => Some (match last_opt M with Some d => mk_sub t L d | None => e end)
+  end.
+Proof.
+  intros t L M. induction M as [|d M IH]; intros e H; cbn [fold_left estep find].
+  - reflexivity.
+  - rewrite H. destruct (agg_of t L d) eqn:A.
+    + apply fold_estep_agg. exact A.
+    + rewrite IH by exact A. rewrite last_opt_cons.
+      destruct (find (agg_of t L) M); [reflexivity|]. destruct (last_opt M); reflexivity.
+Qed.
+
+Lemma fold_estep_none : forall t L M, fold_left (estep t L) M None = choose t L M.
+Proof.
+  intros t L M. unfold choose. destruct M as [|d M]; [reflexivity|].
+  cbn [fold_left estep find]. destruct (agg_of t L d) eqn:A.
+  - apply fold_estep_agg. exact A.
+  - rewrite fold_estep_some by exact A. rewrite last_opt_cons.
+    destruct (find (agg_of t L) M); [reflexivity|]. destruct (last_opt M); reflexivity.
+Qed.
+
+(* the recorded entry of every pair, for every duty list *)
+Lemma info_entry : forall t ok ds s c,
+  find_sub s c (subscription_info t ok ds) = choose t (sort_duties ds) (members ok (sort_duties ds) s c).
+Proof.
+  intros t ok ds s c. unfold subscription_info. rewrite find_fold_add_member.
+  change (find_sub s c []) with (@None sub). rewrite fold_estep_none. reflexivity.
+Qed.
+
+Lemma choose_none_iff : forall t L M, choose t L M = None <-> M = [].
+Proof.
+  intros t L M. unfold choose. destruct (find (agg_of t L) M) eqn:F.
+  - split; [discriminate|]. intros ->. discriminate.
+  - destruct (last_opt M) eqn:E; cbn [option_map].
+    + split; [discriminate|]. intros ->. discriminate.
+    + apply last_opt_none in E. subst. tauto.
+Qed.
+
+Lemma choose_some : forall t L M e, choose t L M = Some e ->
+  exists d, In d M /\ e = mk_sub t L d /\
+            (agg_of t L d = false -> forall d', In d' M -> agg_of t L d' = false).
+Proof.
+  intros t L M e H. unfold choose in H. destruct (find (agg_of t L) M) as [d|] eqn:F.
+  - injection H as <-. apply find_some in F as [Hi Ha]. exists d. split; [exact Hi|]. split; [reflexivity|].
+    intro. congruence.
+  - destruct (last_opt M) as [d|] eqn:E; [|discriminate]. injection H as <-.
+    exists d. split; [apply last_opt_in; exact E|]. split; [reflexivity|].
+    intros _ d' Hd'. destruct (agg_of t L d') eqn:A; [|reflexivity].
+    pose proof (find_none _ _ F d' Hd'). congruence.
+Qed.
+
+(* sorting is a permutation, as far as membership goes *)
+Lemma in_insert_duty : forall x y l, In y (insert_duty x l) <-> y = x \/ In y l.
+Proof.
+  intros x y l. induction l as [|z l IH]; cbn [insert_duty In].
+  - intuition.
+  - destruct (duty_leb x z); cbn [In]; [intuition|]. rewrite IH. intuition.
+Qed.
+
+Lemma in_sort_duties : forall y l, In y (sort_duties l) <-> In y l.
+Proof.
+  intros y l. unfold sort_duties. induction l as [|x l IH]; cbn [fold_right In]; [tauto|].
+  rewrite in_insert_duty, IH. intuition.
+Qed.
+
+Lemma in_members : forall ok L s c d,
+  In d (members ok L s c) <-> In d L /\ d_slot d = s /\ d_comm d = c /\ ok s = true.
+Proof.
+  intros ok L s c d. unfold members. rewrite !filter_In, same_key_iff. unfold dkey. split.
+  - intros [[H1 H2] H3]. injection H3 as <- <-. auto.
+  - intros (H1 & <- & <- & H4). auto.
+Qed.
+
+(* the keys of the info are exactly the pairs with a duty (whose slot could be signed) *)
+Lemma info_keys : forall t ok ds s c,
+  In (s, c) (map skey (subscription_info t ok ds)) <-> exists d, duty_for ok ds s c d.
+Proof.
+  intros t ok ds s c. split.
+  - intro H. destruct (find_sub s c (subscription_info t ok ds)) as [e|] eqn:F.
+    + rewrite info_entry in F. apply choose_some in F as (d & Hd & _).
+      apply in_members in Hd as (H1 & H2 & H3 & H4). rewrite in_sort_duties in H1.
+      exists d. unfold duty_for. repeat split; assumption.
+    + apply find_sub_none_iff in F. contradiction.
+  - intros (d & H1 & H2 & H3 & H4).
+    destruct (find_sub s c (subscription_info t ok ds)) as [e|] eqn:F.
+    + apply find_sub_some in F as (Hi & <- & <-). change (s_slot e, s_comm e) with (skey e).
+      apply in_map. exact Hi.
+    + rewrite info_entry in F. apply choose_none_iff in F.
+      assert (Hm : In d (members ok (sort_duties ds) s c)).
+      { apply in_members. rewrite in_sort_duties. repeat split; assumption. }
+      rewrite F in Hm. destruct Hm.
+Qed.
+
+Lemma add_member_nodup : forall t L info d,
+  NoDup (map skey info) -> NoDup (map skey (add_member t L info d)).
+Proof.
+  intros t L info d ND. unfold add_member.
+  destruct (find_sub (d_slot d) (d_comm d) info) as [e|]; [destruct (s_agg e); [exact ND|]|];
+    apply put_nodup; exact ND.
+Qed.
+
+Lemma fold_add_member_nodup : forall t L M info,
+  NoDup (map skey info) -> NoDup (map skey (fold_left (add_member t L) M info)).
+Proof.
+  intros t L M. induction M as [|d M IH]; intros info ND; cbn [fold_left]; [exact ND|].
+  apply IH. apply add_member_nodup. exact ND.
+Qed.
+
+Lemma info_nodup : forall t ok ds, NoDup (map skey (subscription_info t ok ds)).
+Proof. intros. unfold subscription_info. apply fold_add_member_nodup. constructor. Qed.
+
+(* every stored entry was made from one of the committee's duties *)
+Lemma info_entry_in : forall t ok ds e,
+  In e (subscription_info t ok ds) ->
+  exists d, duty_for ok ds (s_slot e) (s_comm e) d /\ e = mk_sub t (sort_duties ds) d /\
+    (s_agg e = false -> forall d', duty_for ok ds (s_slot e) (s_comm e) d' -> agg_of t (sort_duties ds) d' = false).
+Proof.
+  intros t ok ds e Hi.
+  pose proof (find_sub_in_nodup _ e (info_nodup t ok ds) Hi) as F.
+  rewrite info_entry in F. apply choose_some in F as (d & Hd & He & Hn).
+  exists d. apply in_members in Hd as (H1 & H2 & H3 & H4). rewrite in_sort_duties in H1.
+  split; [unfold duty_for; repeat split; assumption|]. split; [exact He|].
+  intros Ha d' (G1 & G2 & G3 & G4). apply Hn.
+  - rewrite He in Ha. exact Ha.
+  - apply in_members. rewrite in_sort_duties. repeat split; assumption.
+Qed.
